@@ -150,12 +150,14 @@ pub fn wide_case(rng: &mut Rng) -> Vec<String> {
     pool.extend("abcdefghijklmnopqrstuvwxyzABCDEFGHIJKLMNOPQRSTUVWXYZ".chars());
     pool.extend("0123456789 _-.,;:!?\t".chars());
     pool.extend("\u{e9}\u{e8}\u{fc}\u{df}\u{3b1}\u{3b2}\u{3b3}\u{661}\u{662}\u{a0}\u{2003}\u{4e2d}\u{6587}".chars());
+    // astral letters, digits, symbols and the very last planes
+    pool.extend("\u{10400}\u{1d7ce}\u{1f600}\u{1fbf9}\u{1fbfa}\u{20000}\u{2a700}\u{30000}\u{e0100}\u{f0000}\u{10ffff}".chars());
     let n = 1 + rng.below(2);
     (0..n)
         .map(|_| {
             let mut p = pool.clone();
             rng.shuffle(&mut p);
-            let k = 34 + rng.below(30);
+            let k = 34 + rng.below(60);
             let mut s: Vec<char> = p[..k.min(p.len())].to_vec();
             // early symbols come back after many others
             for _ in 0..3 + rng.below(6) {
@@ -165,6 +167,21 @@ pub fn wide_case(rng: &mut Rng) -> Vec<String> {
             s.into_iter().collect()
         })
         .collect()
+}
+
+/// Runs of three consecutive code points at the same offset in different 256-blocks / planes (code
+/// points that collide when truncated to 8 or 16 bits), as sets of one-character test cases.
+pub fn shifted_run_sets() -> Vec<Vec<String>> {
+    let mut v = vec![];
+    for base in [0x61u32, 0x30, 0x4e00, 0x3b1] {
+        for shift in [0u32, 0x100, 0x1000, 0x10000, 0x20000, 0x100000] {
+            let set: Vec<String> = (0..3).filter_map(|k| char::from_u32(base + shift + k)).map(|c| c.to_string()).collect();
+            if set.len() == 3 {
+                v.push(set);
+            }
+        }
+    }
+    v
 }
 
 /// Every blank / ignorable character repeated where no atom precedes it (start of the pattern, start
